@@ -47,10 +47,57 @@ type observeRec struct {
 	val   Value
 }
 
+// fnInfo numbers the SSA values of a function (shared, read-only).
+type fnInfo struct {
+	index map[ssa.Value]int
+	n     int
+}
+
+func (env *Env) info(fn *ssa.Function) *fnInfo {
+	if v, ok := env.fnInfos.Load(fn); ok {
+		return v.(*fnInfo)
+	}
+	fi := &fnInfo{index: map[ssa.Value]int{}}
+	for _, p := range fn.Params {
+		fi.index[p] = fi.n
+		fi.n++
+	}
+	for _, b := range fn.Blocks {
+		for _, ins := range b.Instrs {
+			if v, ok := ins.(ssa.Value); ok {
+				fi.index[v] = fi.n
+				fi.n++
+			}
+		}
+	}
+	if fn.Recover != nil {
+		for _, ins := range fn.Recover.Instrs {
+			if v, ok := ins.(ssa.Value); ok {
+				if _, seen := fi.index[v]; !seen {
+					fi.index[v] = fi.n
+					fi.n++
+				}
+			}
+		}
+	}
+	env.fnInfos.Store(fn, fi)
+	return fi
+}
+
+type localsT struct {
+	fi   *fnInfo
+	vals []Value
+	set  []bool
+}
+
+func newLocals(fi *fnInfo) *localsT {
+	return &localsT{fi: fi, vals: make([]Value, fi.n), set: make([]bool, fi.n)}
+}
+
 type frame struct {
 	in        *Interp
 	fn        *ssa.Function
-	locals    map[ssa.Value]Value
+	locals    *localsT
 	env       []Value
 	defers    []*deferred
 	caller    *frame
@@ -75,10 +122,27 @@ func (in *Interp) global(g *ssa.Global) *Value {
 	return p
 }
 
+func (fr *frame) setLocal(v ssa.Value, val Value) {
+	i, ok := fr.locals.fi.index[v]
+	if !ok {
+		panic(fmt.Sprintf("unnumbered value %s in %s", v.Name(), fr.fn))
+	}
+	fr.locals.vals[i] = val
+	fr.locals.set[i] = true
+}
+
 func (fr *frame) get(v ssa.Value) Value {
 	switch x := v.(type) {
 	case *ssa.Const:
-		return constVal(x)
+		if c, ok := fr.in.env.constCache.Load(x); ok {
+			return c
+		}
+		c := constVal(x)
+		switch c.(type) {
+		case *Term, strV, fltV:
+			fr.in.env.constCache.Store(x, c) // immutable values only
+		}
+		return c
 	case *ssa.Function:
 		return x
 	case *ssa.Global:
@@ -92,11 +156,11 @@ func (fr *frame) get(v ssa.Value) Value {
 	case *ssa.Builtin:
 		return x
 	}
-	r, ok := fr.locals[v]
-	if !ok {
+	i, ok := fr.locals.fi.index[v]
+	if !ok || !fr.locals.set[i] {
 		panic(fmt.Sprintf("no value for %s in %s", v.Name(), fr.fn))
 	}
-	return r
+	return fr.locals.vals[i]
 }
 
 func (in *Interp) cint(v Value) int {
@@ -149,9 +213,9 @@ func (in *Interp) call(fn *ssa.Function, env []Value, args []Value, caller *fram
 		panic(pathAbort{"overflow", "call depth exceeded in " + fn.String()})
 	}
 	defer func() { in.depth-- }()
-	fr := &frame{in: in, fn: fn, locals: make(map[ssa.Value]Value, 16), env: env, caller: caller}
+	fr := &frame{in: in, fn: fn, locals: newLocals(in.env.info(fn)), env: env, caller: caller}
 	for i, p := range fn.Params {
-		fr.locals[p] = args[i]
+		fr.setLocal(p, args[i])
 	}
 	done := false
 	func() {
@@ -248,7 +312,7 @@ func (fr *frame) run(b *ssa.BasicBlock) Value {
 				}
 			}
 			for k := 0; k < nphi; k++ {
-				fr.locals[b.Instrs[k].(*ssa.Phi)] = vals[k]
+				fr.setLocal(b.Instrs[k].(*ssa.Phi), vals[k])
 			}
 		}
 		for _, ins := range b.Instrs[nphi:] {
@@ -332,7 +396,7 @@ func (fr *frame) exec(ins ssa.Instruction) {
 	in := fr.in
 	switch x := ins.(type) {
 	case *ssa.Alloc:
-		fr.locals[x] = newCell(zero(x.Type().(*types.Pointer).Elem()))
+		fr.setLocal(x, newCell(zero(x.Type().(*types.Pointer).Elem())))
 	case *ssa.Store:
 		p := fr.deref(fr.get(x.Addr), "store")
 		storeVal(p, fr.get(x.Val))
@@ -341,39 +405,39 @@ func (fr *frame) exec(ins ssa.Instruction) {
 		switch x.Op {
 		case token.MUL:
 			p := fr.deref(v, "load")
-			fr.locals[x] = copyVal(*p)
+			fr.setLocal(x, copyVal(*p))
 		case token.NOT:
-			fr.locals[x] = mk("not", 0, v.(*Term))
+			fr.setLocal(x, mk("not", 0, v.(*Term)))
 		case token.ARROW:
-			fr.locals[x] = fr.chanRecv(v, x.CommaOk, x.Type())
+			fr.setLocal(x, fr.chanRecv(v, x.CommaOk, x.Type()))
 		case token.SUB:
 			if f, ok := v.(fltV); ok {
-				fr.locals[x] = -f
+				fr.setLocal(x, -f)
 			} else {
 				t := v.(*Term)
-				fr.locals[x] = mk("bvsub", t.w, bv(t.w, 0), t)
+				fr.setLocal(x, mk("bvsub", t.w, bv(t.w, 0), t))
 			}
 		case token.XOR:
 			t := v.(*Term)
-			fr.locals[x] = mk("bvnot", t.w, t)
+			fr.setLocal(x, mk("bvnot", t.w, t))
 		default:
 			panic("unop " + x.Op.String())
 		}
 	case *ssa.BinOp:
-		fr.locals[x] = in.binop(x.Op, fr.get(x.X), fr.get(x.Y), x.X.Type(), x.Y.Type())
+		fr.setLocal(x, in.binop(x.Op, fr.get(x.X), fr.get(x.Y), x.X.Type(), x.Y.Type()))
 	case *ssa.FieldAddr:
 		p := fr.deref(fr.get(x.X), "fieldaddr")
 		s, ok := (*p).(structV)
 		if !ok {
 			unsupported("fieldaddr on %T in %s", *p, fr.fn)
 		}
-		fr.locals[x] = &s[x.Field]
+		fr.setLocal(x, &s[x.Field])
 	case *ssa.Field:
 		s, ok := fr.get(x.X).(structV)
 		if !ok {
 			unsupported("field of %T in %s", fr.get(x.X), fr.fn)
 		}
-		fr.locals[x] = s[x.Field]
+		fr.setLocal(x, s[x.Field])
 	case *ssa.IndexAddr:
 		base := fr.get(x.X)
 		idx := fr.get(x.Index).(*Term)
@@ -383,7 +447,7 @@ func (fr *frame) exec(ins ssa.Instruction) {
 			if !ok {
 				in.goPanicStr("index out of range")
 			}
-			fr.locals[x] = bb.at(i)
+			fr.setLocal(x, bb.at(i))
 		case *Value:
 			if bb == nil {
 				in.goPanicStr("invalid memory address or nil pointer dereference")
@@ -393,7 +457,7 @@ func (fr *frame) exec(ins ssa.Instruction) {
 			if !ok {
 				in.goPanicStr("index out of range")
 			}
-			fr.locals[x] = &a[i]
+			fr.setLocal(x, &a[i])
 		default:
 			unsupported("indexaddr %T in %s", base, fr.fn)
 		}
@@ -405,27 +469,27 @@ func (fr *frame) exec(ins ssa.Instruction) {
 			if !ok {
 				in.goPanicStr("index out of range")
 			}
-			fr.locals[x] = a[i]
+			fr.setLocal(x, a[i])
 		case strV:
 			noAtom(a, "indexing")
 			i, ok := in.concretize(idx, 0, len(a))
 			if !ok {
 				in.goPanicStr("index out of range")
 			}
-			fr.locals[x] = a[i]
+			fr.setLocal(x, a[i])
 		default:
 			unsupported("index %T", a)
 		}
 	case *ssa.Convert:
-		fr.locals[x] = in.convert(fr.get(x.X), x.X.Type(), x.Type())
+		fr.setLocal(x, in.convert(fr.get(x.X), x.X.Type(), x.Type()))
 	case *ssa.ChangeInterface:
-		fr.locals[x] = fr.get(x.X)
+		fr.setLocal(x, fr.get(x.X))
 	case *ssa.ChangeType:
-		fr.locals[x] = fr.get(x.X)
+		fr.setLocal(x, fr.get(x.X))
 	case *ssa.SliceToArrayPointer:
 		unsupported("SliceToArrayPointer")
 	case *ssa.MakeInterface:
-		fr.locals[x] = iface{t: x.X.Type(), v: fr.get(x.X)}
+		fr.setLocal(x, iface{t: x.X.Type(), v: fr.get(x.X)})
 	case *ssa.MakeSlice:
 		n := in.cint(fr.get(x.Len))
 		c := in.cint(fr.get(x.Cap))
@@ -437,30 +501,30 @@ func (fr *frame) exec(ins ssa.Instruction) {
 		for i := range a {
 			a[i] = zero(et)
 		}
-		fr.locals[x] = sliceV{a: &a, n: n, capacity: c}
+		fr.setLocal(x, sliceV{a: &a, n: n, capacity: c})
 	case *ssa.Slice:
-		fr.locals[x] = fr.sliceOp(x)
+		fr.setLocal(x, fr.sliceOp(x))
 	case *ssa.TypeAssert:
-		fr.locals[x] = fr.typeAssert(x)
+		fr.setLocal(x, fr.typeAssert(x))
 	case *ssa.Extract:
 		tv := fr.get(x.Tuple)
 		if o, ok := tv.(opaque); ok {
-			fr.locals[x] = o
+			fr.setLocal(x, o)
 		} else {
-			fr.locals[x] = tv.(tupleV)[x.Index]
+			fr.setLocal(x, tv.(tupleV)[x.Index])
 		}
 	case *ssa.Call:
-		fr.locals[x] = fr.doCall(&x.Call)
+		fr.setLocal(x, fr.doCall(&x.Call))
 	case *ssa.MakeClosure:
 		env := make([]Value, len(x.Bindings))
 		for i, b := range x.Bindings {
 			env[i] = fr.get(b)
 		}
-		fr.locals[x] = closure{fn: x.Fn.(*ssa.Function), env: env}
+		fr.setLocal(x, closure{fn: x.Fn.(*ssa.Function), env: env})
 	case *ssa.MakeChan:
-		fr.locals[x] = &chanV{cap: in.cint(fr.get(x.Size))}
+		fr.setLocal(x, &chanV{cap: in.cint(fr.get(x.Size))})
 	case *ssa.MakeMap:
-		fr.locals[x] = &mapV{}
+		fr.setLocal(x, &mapV{})
 	case *ssa.MapUpdate:
 		m, ok := fr.get(x.Map).(*mapV)
 		if !ok {
@@ -478,16 +542,16 @@ func (fr *frame) exec(ins ssa.Instruction) {
 				v = zero(x.X.Type().Underlying().(*types.Map).Elem())
 			}
 			if x.CommaOk {
-				fr.locals[x] = tupleV{copyVal(v), bl(ok)}
+				fr.setLocal(x, tupleV{copyVal(v), bl(ok)})
 			} else {
-				fr.locals[x] = copyVal(v)
+				fr.setLocal(x, copyVal(v))
 			}
 		case strV:
 			i, ok := in.concretize(fr.get(x.Index).(*Term), 0, len(m))
 			if !ok {
 				in.goPanicStr("index out of range")
 			}
-			fr.locals[x] = m[i]
+			fr.setLocal(x, m[i])
 		default:
 			unsupported("lookup %T", m)
 		}
@@ -499,10 +563,10 @@ func (fr *frame) exec(ins ssa.Instruction) {
 				it.keys = append([]Value{}, m.keys...)
 				it.vals = append([]Value{}, m.vals...)
 			}
-			fr.locals[x] = it
+			fr.setLocal(x, it)
 		case strV:
 			noAtom(m, "range")
-			fr.locals[x] = &iterV{s: m}
+			fr.setLocal(x, &iterV{s: m})
 		default:
 			unsupported("range %T", m)
 		}
@@ -510,7 +574,7 @@ func (fr *frame) exec(ins ssa.Instruction) {
 		it := fr.get(x.Iter).(*iterV)
 		if x.IsString {
 			if it.pos >= len(it.s) {
-				fr.locals[x] = tupleV{tFalse, bv(64, 0), bv(32, 0)}
+				fr.setLocal(x, tupleV{tFalse, bv(64, 0), bv(32, 0)})
 			} else {
 				b := it.s[it.pos]
 				if b.isConst && b.c >= 0x80 {
@@ -520,11 +584,11 @@ func (fr *frame) exec(ins ssa.Instruction) {
 						str = append(str, byte(it.s[j].c))
 					}
 					r, size := decodeRune(str)
-					fr.locals[x] = tupleV{tTrue, bv(64, uint64(it.pos)), bv(32, uint64(r))}
+					fr.setLocal(x, tupleV{tTrue, bv(64, uint64(it.pos)), bv(32, uint64(r))})
 					it.pos += size
 				} else {
 					in.requireASCII(b)
-					fr.locals[x] = tupleV{tTrue, bv(64, uint64(it.pos)), resize(b, 32, false)}
+					fr.setLocal(x, tupleV{tTrue, bv(64, uint64(it.pos)), resize(b, 32, false)})
 					it.pos++
 				}
 			}
@@ -537,17 +601,17 @@ func (fr *frame) exec(ins ssa.Instruction) {
 				it.pos++
 			}
 			if it.pos >= len(it.keys) {
-				fr.locals[x] = tupleV{tFalse, nil, nil}
+				fr.setLocal(x, tupleV{tFalse, nil, nil})
 			} else {
 				v, _ := in.mapGetConcreteIdentity(it.m, it.keys[it.pos])
-				fr.locals[x] = tupleV{tTrue, it.keys[it.pos], copyVal(v)}
+				fr.setLocal(x, tupleV{tTrue, it.keys[it.pos], copyVal(v)})
 				it.pos++
 			}
 		}
 	case *ssa.Send:
 		fr.chanSend(fr.get(x.Chan), fr.get(x.X))
 	case *ssa.Select:
-		fr.locals[x] = fr.doSelect(x)
+		fr.setLocal(x, fr.doSelect(x))
 	case *ssa.DebugRef:
 	default:
 		unsupported("instruction %T: %s in %s", ins, ins, fr.fn)
